@@ -178,7 +178,7 @@ def run(rep, sub=False):
         for e in ogp.effects.get(q, []):
             if e['in'] != q and e['in'] in recursive:
                 continue  # code of another walker: judged in that function's own summary, where its parameters are symbolic
-            k = (e['in'], e['line'], e['kind'], e.get('callee'), e.get('method'))
+            k = (e['in'], e['line'], e['kind'], e.get('callee'), e.get('method'), repr(e.get('args'))[:400], repr(e.get('cond'))[:400])
             if k in seen:
                 continue
             seen.add(k)
